@@ -1,16 +1,10 @@
-import Driver.Codec
+import Driver.Base
+import Driver.ZoneCmds
 import Resolved.Spec.RefDecode
 
 namespace Resolved.Driver
 
 open Resolved Resolved.Codec
-
-structure Result where
-  model : String
-  oracle : String := "ok"
-  tags : String := ""
-
-def bad (why : String) : Result := { model := "bad-op:" ++ why, oracle := "bad-op" }
 
 def showEErr : EErr → String
   | .counterTooLarge c b => s!"CounterTooLarge({c},{b})"
@@ -112,6 +106,8 @@ def dispatch (fields : List String) : Result :=
     match parseName a, parseName b with
     | some a, some b => { model := match Name.cmp a b with | .lt => "lt" | .eq => "eq" | .gt => "gt" }
     | _, _ => bad "args"
+  | ["zone.resolve", z, n, t, impl] => cmdZoneResolve z n t impl
+  | ["zones.merge", z, n, t, impl] => cmdZonesMerge z n t impl
   | cmd :: _ => bad ("unknown " ++ cmd)
   | [] => bad "empty"
 
